@@ -10,7 +10,7 @@ TECHNIQUE = ('exhaustive enumeration of all heading outlines of length 0..4/0..6
 ASSUMPTIONS = ['domain as in the property: the qualifying headings form an outline; titles are plain words with optional emphasis/code/link markup',
                'setext headings are not placed inside block quotes (recorded defect of C03/C04, not of the TOC)']
 BOUNDS = {'quick': 4, 'thorough': 6}
-MARKUP = ['{w}', '*{w}* x', '`{w}` y', '[{w}](/u) z', '**{w}**', '{w} &amp; v', '{w} \\* u', '~~{w}~~ t']
+MARKUP = ['{w}', '*{w}* x', '`{w}` y', '[{w}](/u) z', '**{w}**', '{w} &amp; v', '{w} \\* u', '~~{w}~~ t', '***{w}*** ***a*** ***b*** ***c*** ***d*** `e` `f`']
 
 
 def describe(tier):
@@ -59,6 +59,7 @@ def write_doc(levels, spell, place, marks, zz, repeat=False):
         title = MARKUP[marks[i]].format(w=w)
         plain = (title.replace('\\*', '\0').replace('*', '').replace('\0', '*').replace('`', '').replace('[', '').replace('](/u)', '')
                  .replace('&amp;', '&').replace('~~', ''))
+        plain = plain.replace('`', '')
         heads.append((lv, plain))
         if spell[i] == 'setext' and lv <= 2:
             h = [title, '===' if lv == 1 else '---']
@@ -139,7 +140,7 @@ def configs_for(levels):
         zzs = [frozenset(s) for k in range(n + 1) for s in itertools.combinations(range(n), k)]
     else:
         zzs = [frozenset()] + [frozenset([i]) for i in range(n)]
-    markss = [tuple(0 for _ in range(n)), tuple((i + 1) % len(MARKUP) for i in range(n)), tuple((i + 5) % len(MARKUP) for i in range(n))]
+    markss = [tuple(0 for _ in range(n)), tuple((i + 1) % len(MARKUP) for i in range(n)), tuple((i + 8) % len(MARKUP) for i in range(n)), tuple((i + 5) % len(MARKUP) for i in range(min(n, 1)))+ tuple(0 for _ in range(max(0, n - 1)))]
     for spell in spells:
         for place in places:
             if any(s == 'setext' and p == 'quote' and l <= 2 for s, p, l in zip(spell, place, levels)):
